@@ -299,6 +299,9 @@ def check_registration(ctx):
         ok, hit = unreachable_without(rcc, [c.bb for c in regs], removed_edges=fl)
         if ok:
             good = True
+    # or it is not inside any loop at all (a straight-line `try, register, try again`)
+    if len(regs) == 1 and all(rcc.scc_of(c.bb) is None for c in regs):
+        good = True
     ctx.require(L5, good, regs[0].where() if regs else "-",
                 "Account::register in request_certificate is reachable only while a latch that is set right after it is still false (at most one re-registration per attempt)",
                 [RC, "reregister-guard"])
